@@ -150,7 +150,7 @@ class Ctx:
                                          depth=r.depth, wall_s=round(r.wall, 1), simulate=simulate or 0))
         log("[tlc] %s: %d generated / %d distinct, depth %d, %.1fs%s" % (
             name, r.generated, r.distinct, r.depth, r.wall,
-            (" VIOLATED " + ",".join(r.violated)) if r.violated else ""))
+            ((" [rejects %s%s]" % (",".join(r.violated), ", as this step expects" if allow_violation else "")) if r.violated else "")))
         if p.returncode == 124:
             raise MachineryError("TLC timed out on %s after %ds" % (name, timeout))
         if r.errors:
